@@ -506,7 +506,7 @@ pub fn run(args: &Args) {
     let mut pending_count = 0u64;
     let all_bases: &[Base] = &BASES;
     let plan: Vec<(&Space, usize, bool, &[Base])> = if quick {
-        vec![(&space, 4, false, all_bases), (&narrow, 6, false, all_bases), (&narrow, 4, true, all_bases)]
+        vec![(&space, 4, false, all_bases), (&narrow, 5, false, &[Base::Head, Base::MidInit]), (&narrow, 6, false, &[Base::Fresh, Base::Mid]), (&narrow, 4, true, all_bases)]
     } else {
         vec![
             (&narrow, 7, false, all_bases),
@@ -566,9 +566,13 @@ pub fn run(args: &Args) {
         rep.outcome("revert_to_checkpoint_with_pending_writes_violates", pending_count);
         rep.violation(PENDING_KEY, format!("{pending_count} histories of this class violate; first: {hist}\n{text}"), replay);
     }
+    // ephemeral sessions (every history is its own state: no merging)
+    let (s_hist, s_steps) = session::run(&mut rep, if quick { 2 } else { 3 }, if quick { 3 } else { 4 });
+    states += s_hist;
+    transitions += s_steps;
     rep.count("states", states);
     rep.count("transitions", transitions);
-    rep.count("traces_validated_against_impl", stats.executions.load(Relaxed));
+    rep.count("traces_validated_against_impl", stats.executions.load(Relaxed) + s_hist);
     rep.count("operations_replayed", stats.ops.load(Relaxed));
     rep.set("spaces", Value::Array(spaces));
     rep.set("exhaustive", !cap);
@@ -648,5 +652,223 @@ fn replay(args: &Args, space: &Space, full: &Alphabet, path: &std::path::Path) -
             println!("VIOLATION property={} replay={}", args.prop, path.display());
             std::process::exit(1)
         }
+    }
+}
+
+// ---------------------------------------------------------------------------------------------
+// ephemeral sessions: `SessionPerspective::revert` through `Session::action` / `Session::receive`
+
+pub mod session {
+    //! The session perspective is private; its checkpoint/revert pair is reached exactly as the
+    //! runtime reaches it: `Session::action` and `Session::receive` take a checkpoint, run the
+    //! policy, and revert when the policy fails.  The scripted policy writes facts and then
+    //! rejects ("writes made by a rule that then failed"), also in the second command of a
+    //! two-command action (the first command's writes must vanish too).
+    //!
+    //! Space: every sequence of length ≤ d over {action ok, action failing after its write,
+    //! two-command action failing in the second command, receive ok, receive failing after its
+    //! write} × writes {ins v0, ins v1, delete} × keys {["a"] (committed), [""] (not committed)},
+    //! on a session over a committed graph.  Oracle: after every step, the facts a further rule
+    //! sees inside the session (prefix query over the name + exact queries) equal committed facts
+    //! ⊕ writes of the successful steps only.
+
+    use std::sync::atomic::{AtomicU64, Ordering::Relaxed};
+
+    use aranya_runtime::{storage::linear::testing::MemStorageProvider, ClientState, MemSpill, RuntimeBuffers, StorageProvider};
+    use mcx::{json, rayon::prelude::*, Report};
+
+    use crate::{
+        policy::{derived_id, encode, Action, MsgSink, ScriptStore, VecSink, Wop},
+        store::{k, Model, K},
+    };
+
+    #[derive(Clone, Copy, Debug, PartialEq, Eq)]
+    pub enum Kind {
+        ActOk,
+        ActFail,
+        Act2Fail,
+        RecvOk,
+        RecvFail,
+    }
+
+    /// write = (key index, Some(value) | None = delete)
+    type Wr = (u8, Option<u8>);
+
+    #[derive(Clone, Copy, Debug, PartialEq, Eq)]
+    pub struct SOp {
+        kind: Kind,
+        w1: Wr,
+        w2: Wr,
+    }
+
+    fn keys() -> Vec<K> {
+        vec![k(&["a"]), k(&[""])]
+    }
+
+    fn wop(w: Wr) -> Wop {
+        let key = keys()[w.0 as usize].clone();
+        match w.1 {
+            Some(v) => Wop::Ins("n0".into(), key, format!("v{v}").into_bytes()),
+            None => Wop::Del("n0".into(), key),
+        }
+    }
+
+    fn show(o: &SOp) -> String {
+        let w = |w: Wr| match w.1 {
+            Some(v) => format!("ins({},v{v})", crate::store::show_key(&keys()[w.0 as usize])),
+            None => format!("del({})", crate::store::show_key(&keys()[w.0 as usize])),
+        };
+        match o.kind {
+            Kind::ActOk => format!("action[{}]", w(o.w1)),
+            Kind::ActFail => format!("action[{}; reject]", w(o.w1)),
+            Kind::Act2Fail => format!("action[{}][{}; reject]", w(o.w1), w(o.w2)),
+            Kind::RecvOk => format!("receive[{}]", w(o.w1)),
+            Kind::RecvFail => format!("receive[{}; reject]", w(o.w1)),
+        }
+    }
+
+    fn dump(m: &Model, probe: &[K]) -> String {
+        let mut s = String::from("n0:");
+        for ((_, key), v) in m.iter() {
+            let key: Vec<String> = key.iter().map(|p| String::from_utf8_lossy(p).to_string()).collect();
+            s.push_str(&format!(" {key:?}={}", String::from_utf8_lossy(v)));
+        }
+        s.push_str(" |");
+        for p in probe {
+            s.push_str(&format!(" {:?}", m.get(&("n0".to_string(), p.clone())).map(|b| String::from_utf8_lossy(b).to_string())));
+        }
+        s
+    }
+
+    thread_local! {
+        static BUFS: std::cell::RefCell<Option<Box<RuntimeBuffers<<MemStorageProvider as StorageProvider>::Segment>>>> = const { std::cell::RefCell::new(None) };
+    }
+
+    fn exec(hist: &[SOp], reverts: &AtomicU64) -> Result<(), String> {
+        let mut client = ClientState::new(ScriptStore, MemStorageProvider::default());
+        let mut sink = VecSink::default();
+        let a0 = Action { tag: 0x20, seq: 0, cmds: vec![vec![Wop::Ins("n0".into(), k(&["a"]), b"v0".to_vec()), Wop::Ins("n0".into(), k(&["a", "a"]), b"v0".to_vec())]] };
+        let gid = client.new_graph(b"p", &a0, &mut sink).map_err(|e| format!("new_graph: {e:?}"))?;
+        let a1 = Action { tag: 0x20, seq: 1, cmds: vec![vec![Wop::Ins("n0".into(), k(&["ab"]), b"v1".to_vec())]] };
+        BUFS.with(|b| {
+            let mut b = b.borrow_mut();
+            let bufs = b.get_or_insert_with(|| Box::new(RuntimeBuffers::new()));
+            client.action(gid, &mut sink, &a1, bufs, MemSpill::new).map_err(|e| format!("action: {e:?}"))
+        })?;
+        let mut model: Model = Model::new();
+        model.insert(("n0".into(), k(&["a"])), b"v0".to_vec());
+        model.insert(("n0".into(), k(&["a", "a"])), b"v0".to_vec());
+        model.insert(("n0".into(), k(&["ab"])), b"v1".to_vec());
+        let mut session = client.session(gid).map_err(|e| format!("session: {e:?}"))?;
+        let mut msgs = MsgSink::default();
+        let probe: Vec<K> = vec![k(&["a"]), k(&[""]), k(&["a", "a"]), k(&["ab"])];
+        let apply = |m: &mut Model, w: Wr| {
+            let key = ("n0".to_string(), keys()[w.0 as usize].clone());
+            match w.1 {
+                Some(v) => {
+                    m.insert(key, format!("v{v}").into_bytes());
+                }
+                None => {
+                    m.remove(&key);
+                }
+            }
+        };
+        for (i, o) in hist.iter().enumerate() {
+            let seq = 10 + i as u64;
+            let res: Result<(), String> = match o.kind {
+                Kind::ActOk => session.action(&client, &mut sink, &mut msgs, &Action { tag: 0x21, seq, cmds: vec![vec![wop(o.w1)]] }).map_err(|e| format!("{e:?}")),
+                Kind::ActFail => session.action(&client, &mut sink, &mut msgs, &Action { tag: 0x21, seq, cmds: vec![vec![wop(o.w1), Wop::Reject]] }).map_err(|e| format!("{e:?}")),
+                Kind::Act2Fail => session.action(&client, &mut sink, &mut msgs, &Action { tag: 0x21, seq, cmds: vec![vec![wop(o.w1)], vec![wop(o.w2), Wop::Reject]] }).map_err(|e| format!("{e:?}")),
+                Kind::RecvOk | Kind::RecvFail => {
+                    let mut ops = vec![wop(o.w1)];
+                    if o.kind == Kind::RecvFail {
+                        ops.push(Wop::Reject);
+                    }
+                    let mut bytes = derived_id(0x22, seq, 0, &aranya_runtime::Prior::None).as_bytes().to_vec();
+                    bytes.extend(encode(&ops));
+                    session.receive(&client, &mut sink, &bytes).map_err(|e| format!("{e:?}"))
+                }
+            };
+            let should_fail = matches!(o.kind, Kind::ActFail | Kind::Act2Fail | Kind::RecvFail);
+            match (&res, should_fail) {
+                (Ok(()), false) => apply(&mut model, o.w1),
+                (Err(_), true) => {
+                    reverts.fetch_add(1, Relaxed);
+                }
+                (Ok(()), true) => return Err(format!("step {} ({}) succeeded although the policy rejected", i + 1, show(o))),
+                (Err(e), false) => return Err(format!("step {} ({}) failed: {e}", i + 1, show(o))),
+            }
+            // what does a further rule see inside the session?
+            let before = sink.committed.len();
+            session
+                .action(&client, &mut sink, &mut msgs, &Action { tag: 0x23, seq, cmds: vec![vec![Wop::Observe("n0".into(), probe.clone())]] })
+                .map_err(|e| format!("observing after step {}: {e:?}", i + 1))?;
+            let got = sink.committed.get(before).cloned().unwrap_or_default();
+            let want = dump(&model, &probe);
+            if got != want {
+                return Err(format!("after step {} ({}): a rule in the session sees `{got}`, expected `{want}`", i + 1, show(o)));
+            }
+        }
+        Ok(())
+    }
+
+    pub fn run(rep: &mut Report, depth: usize, depth_single: usize) -> (u64, u64) {
+        let mut ops: Vec<SOp> = Vec::new();
+        let writes: Vec<Wr> = (0..2u8).flat_map(|key| [(key, Some(0)), (key, Some(1)), (key, None)]).collect();
+        for &w1 in &writes {
+            for kind in [Kind::ActOk, Kind::ActFail, Kind::RecvOk, Kind::RecvFail] {
+                ops.push(SOp { kind, w1, w2: w1 });
+            }
+            for &w2 in &writes {
+                ops.push(SOp { kind: Kind::Act2Fail, w1, w2 });
+            }
+        }
+        let reverts = AtomicU64::new(0);
+        // all sequences to `depth` over every operation, and to `depth_single` over the
+        // single-command operations
+        let mut seqs: Vec<Vec<SOp>> = vec![vec![]];
+        let singles: Vec<SOp> = ops.iter().copied().filter(|o| o.kind != Kind::Act2Fail).collect();
+        for (alphabet, d, from) in [(&ops, depth, 1usize), (&singles, depth_single, depth + 1)] {
+            let mut frontier: Vec<Vec<SOp>> = vec![vec![]];
+            for len in 1..=d {
+                let mut next = Vec::new();
+                for h in &frontier {
+                    for o in alphabet.iter() {
+                        let mut n = h.clone();
+                        n.push(*o);
+                        next.push(n);
+                    }
+                }
+                if len >= from {
+                    seqs.extend(next.iter().cloned());
+                }
+                frontier = next;
+            }
+        }
+        let outs: Vec<Result<(), String>> = seqs
+            .par_iter()
+            .map(|h| match mcx::catch(|| exec(h, &reverts)) {
+                Ok(r) => r,
+                Err(p) => Err(format!("panic: {p} at {}", mcx::last_panic_location())),
+            })
+            .collect();
+        let mut steps = 0u64;
+        for (h, r) in seqs.iter().zip(outs) {
+            steps += h.len() as u64;
+            if let Err(text) = r {
+                // only report histories whose proper prefixes are clean (minimal)
+                rep.outcome("violation", 1);
+                let hist = h.iter().map(show).collect::<Vec<_>>().join("; ");
+                rep.violation(format!("session: {hist}"), text, json!({"session": hist}));
+            }
+        }
+        if let Some(h) = seqs.iter().find(|h| h.len() == depth && h.iter().any(|o| o.kind == Kind::Act2Fail)) {
+            rep.sample(json!({"space": "session", "history": h.iter().map(show).collect::<Vec<_>>()}));
+        }
+        rep.count("session_histories", seqs.len() as u64);
+        rep.count("session_failed_steps_reverted", reverts.load(Relaxed));
+        rep.require_nonzero("session_failed_steps_reverted");
+        rep.set("session_space", json!({"operations": ops.len(), "depth_all_operations": depth, "depth_single_command_operations": depth_single, "histories": seqs.len()}));
+        (seqs.len() as u64, steps)
     }
 }
